@@ -406,6 +406,8 @@ func pipeline(reps int, dump string) {
 	disasmPart(reps)
 	mergeRepeatPart(reps)
 	legacyParseRepeatPart(reps)
+	symbolizeRepeatPart(reps)
+	listRepeatPart(reps)
 	// fetch completion order: three sources finishing in opposite orders
 	delays := [][]time.Duration{{0, 15 * time.Millisecond, 30 * time.Millisecond}, {30 * time.Millisecond, 15 * time.Millisecond, 0}}
 	for _, f := range [][]string{{"-proto"}, {"-raw"}, {"-top"}} {
@@ -486,6 +488,114 @@ func mergeRepeatPart(reps int) {
 					break
 				}
 			}
+		}
+	}
+}
+
+// symOnly answers SourceLine with a name that depends on the binary and the address; nothing else
+type symObj struct{}
+type symFile struct{ name string }
+
+func (symObj) Open(file string, start, limit, offset uint64, rel string) (plugin.ObjFile, error) {
+	return symFile{file}, nil
+}
+func (symObj) Disasm(file string, start, end uint64, intel bool) ([]plugin.Inst, error) {
+	return nil, fmt.Errorf("no disassembler")
+}
+func (f symFile) Name() string                        { return f.name }
+func (f symFile) ObjAddr(addr uint64) (uint64, error) { return addr, nil }
+func (f symFile) BuildID() string                     { return "" }
+func (f symFile) Close() error                        { return nil }
+func (f symFile) SourceLine(addr uint64) ([]plugin.Frame, error) {
+	return []plugin.Frame{{Func: fmt.Sprintf("%s_fn%x", f.name, addr&0xff), File: f.name + ".c", Line: int(addr & 0xff)}}, nil
+}
+func (f symFile) Symbols(r *regexp.Regexp, addr uint64) ([]*plugin.Sym, error) { return nil, nil }
+
+// an unsymbolized profile over several binaries, symbolized by the driver's own symbolizer: the function table it
+// builds (ids, order) and with it the bytes of -proto are the same in every run
+func symbolizeRepeatPart(reps int) {
+	p := &profile.Profile{SampleType: []*profile.ValueType{{Type: "samples", Unit: "count"}}, PeriodType: &profile.ValueType{Type: "cpu", Unit: "ns"}, Period: 1}
+	for mi, file := range []string{"bin1", "libz", "libc", "liba", "libm"} {
+		m := &profile.Mapping{ID: uint64(mi + 1), Start: uint64(0x1000 * (mi + 1)), Limit: uint64(0x1000 * (mi + 2)), File: file}
+		p.Mapping = append(p.Mapping, m)
+		for k := 0; k < 3; k++ {
+			l := &profile.Location{ID: uint64(len(p.Location) + 1), Mapping: m, Address: m.Start + uint64(0x10*(k+1))}
+			p.Location = append(p.Location, l)
+			p.Sample = append(p.Sample, &profile.Sample{Location: []*profile.Location{l}, Value: []int64{int64(1 + mi + k)}})
+		}
+	}
+	for _, f := range [][]string{{"-proto"}, {"-raw"}, {"-top"}} {
+		var first []byte
+		for k := 0; k < reps*3; k++ {
+			args := append(append([]string{"-functions", "-flat"}, f...), "-nodecount=0", "-output=out", "src")
+			res := vdrv.Run(vdrv.Opts{Args: args, Obj: symObj{}, RealSym: true, Fetch: func(string) (*profile.Profile, error) { return p.Copy(), nil }})
+			if res.Err != nil || res.Panic != nil {
+				run.Violate("pipeline", "symbolize-repeat-error:"+f[0], fmt.Sprint(res.Err, res.Panic), nil, nil)
+				break
+			}
+			run.Count("symrepeat" + f[0])
+			if k == 0 && f[0] == "-top" && !strings.Contains(string(res.Files["out"]), "libz_fn10") {
+				run.Infra("symbolize-repeat: the profile was not symbolized:\n" + clip(res.Files["out"]))
+				break
+			}
+			if first == nil {
+				first = res.Files["out"]
+			} else if !bytes.Equal(first, res.Files["out"]) {
+				run.Violate("pipeline", "nondeterministic-symbolization:"+strings.TrimLeft(f[0], "-"), fmt.Sprintf("run %d of %v differs from run 0:\n%s\nvs\n%s", k, f, clip(first), clip(res.Files["out"])), nil, nil)
+				break
+			}
+		}
+	}
+}
+
+// source listings: two functions of one name in one file (overloads, file-local functions of included files), the
+// second starting earlier and sampled later than the first; the listing covers the lines of both, in every run
+func listRepeatPart(reps int) {
+	dir, err := os.MkdirTemp("", "c08-src-")
+	if err != nil {
+		run.Infra(err.Error())
+		return
+	}
+	defer os.RemoveAll(dir)
+	src := filepath.Join(dir, "dup.c")
+	var sb strings.Builder
+	for i := 1; i <= 60; i++ {
+		fmt.Fprintf(&sb, "/* line %d */\n", i)
+	}
+	os.WriteFile(src, []byte(sb.String()), 0o644)
+	m := &profile.Mapping{ID: 1, Start: 0x1000, Limit: 0x2000, File: "bin1", HasFunctions: true, HasFilenames: true, HasLineNumbers: true}
+	f1 := &profile.Function{ID: 1, Name: "dup", SystemName: "dup", Filename: src, StartLine: 10}
+	f2 := &profile.Function{ID: 2, Name: "dup", SystemName: "dup", Filename: src, StartLine: 5}
+	l1 := &profile.Location{ID: 1, Mapping: m, Address: 0x1010, Line: []profile.Line{{Function: f1, Line: 12}}}
+	l2 := &profile.Location{ID: 2, Mapping: m, Address: 0x1020, Line: []profile.Line{{Function: f2, Line: 30}}}
+	p := &profile.Profile{SampleType: []*profile.ValueType{{Type: "samples", Unit: "count"}}, PeriodType: &profile.ValueType{Type: "cpu", Unit: "ns"}, Period: 1,
+		Mapping: []*profile.Mapping{m}, Function: []*profile.Function{f1, f2}, Location: []*profile.Location{l1, l2},
+		Sample: []*profile.Sample{{Location: []*profile.Location{l1}, Value: []int64{3}}, {Location: []*profile.Location{l2}, Value: []int64{5}}}}
+	var first []byte
+	for k := 0; k < reps*10; k++ {
+		res := vdrv.Run(vdrv.Opts{Args: []string{"-list=dup", "-output=out", "src"}, Fetch: func(string) (*profile.Profile, error) { return p.Copy(), nil }})
+		if res.Err != nil || res.Panic != nil {
+			run.Violate("pipeline", "list-repeat-error", fmt.Sprint(res.Err, res.Panic), nil, nil)
+			return
+		}
+		run.Count("listrepeat")
+		out := res.Files["out"]
+		if k == 0 && !bytes.Contains(out, []byte("/* line 12 */")) {
+			run.Infra("list-repeat: no source in the listing:\n" + clip(out))
+			return
+		}
+		// every sampled line is in the listing
+		for _, ln := range []string{"/* line 12 */", "/* line 30 */"} {
+			if !bytes.Contains(out, []byte(ln)) {
+				run.Violate("pipeline", "list-sampled-line-missing", fmt.Sprintf("run %d: the listing of dup lacks the sampled %s\n%s", k, ln, clip(out)), nil, nil)
+				return
+			}
+		}
+		if first == nil {
+			first = out
+		} else if !bytes.Equal(first, out) {
+			run.Violate("pipeline", "nondeterministic-output:list", fmt.Sprintf("run %d of -list=dup differs from run 0:\n%s\nvs\n%s", k, clip(first), clip(out)), nil, nil)
+			return
 		}
 	}
 }
